@@ -1105,11 +1105,12 @@ def _unreachable_by_rem(site):
 # (function by stable key, site kind) -> invariant the site relies on.  `max` bounds how many sites of that kind the
 # function may contain; `requires` names a mechanical side condition that is re-checked on every run.
 AUDITED = [
-    {'fn': '<codec::BytesCursor as Input>::read', 'kind': 'Overflow Sub', 'max': 1,
+    # a struct invariant, so the row is keyed by the receiver type and the expression, not by the method: any method of
+    # BytesCursor (also a private accessor factored out of `read` / `remaining_len`) may compute `bytes.len() - position`
+    {'self_ty': 'codec::BytesCursor', 'kind': 'Overflow Sub', 'max': 1, 'requires': 'cursor-remaining',
      'why': 'bytes.len() - position: struct invariant position <= bytes.len() (decode_from_bytes starts at 0; read advances '
-            'position only after the `into.len() > bytes.len() - position` rejection; scale_internal_decode_bytes resets it to 0)'},
-    {'fn': '<codec::BytesCursor as Input>::remaining_len', 'kind': 'Overflow Sub', 'max': 1,
-     'why': 'bytes.len() - position: the same struct invariant position <= bytes.len()'},
+            'position only after the `into.len() > bytes.len() - position` rejection; scale_internal_decode_bytes resets it to 0; '
+            'the writers of `position` are audited by R08.4)'},
     {'fn': '<codec::BytesCursor as Input>::scale_internal_decode_bytes', 'kind': 'call advance', 'max': 1,
      'why': 'Buf::advance(&mut bytes, position): position <= bytes.len() by the struct invariant'},
     {'fn': '<codec::BytesCursor as Input>::scale_internal_decode_bytes', 'kind': 'call split_to', 'max': 1, 'requires': 'arg1-le-len',
@@ -1164,6 +1165,13 @@ def _audit_requires(req, site):
                 if cx.body.reads_stable(set(pts) | set(site.pts), site.bi, False, ignore_calls=('on_before_alloc_mem',)):
                     return True
         return False
+    if req == 'cursor-remaining':
+        # len(<one field of *self>) - <the other field of *self>
+        if len(site.exprs) != 2:
+            return False
+        a, b = (mirx.show(strip_at(e)) for e in site.exprs)
+        ma, mb = re.match(r'^len\(&\*arg1\.(\d)\)$', a), re.match(r'^\*arg1\.(\d)$', b)
+        return bool(ma and mb and ma.group(1) != mb.group(1))
     if req == 'callback-reports-chunk':
         # the subtrahend is the result of calling the callback parameter, and K1-K2 hold (incl. "every callback reports the
         # chunk it was given", decided on the callers with their closures inlined)
@@ -1184,6 +1192,7 @@ def check_panics(out, facts, repo_root, label=None, delegated=True, floor=None, 
     """R03.3 over one fact set.  Returns (sites, discharged-by-rule counter)."""
     cfg = label or facts.cfg
     _CUR_FACTS[0] = facts
+    mirx.FN_LOOKUP[0] = lambda n: facts.by_path.get(_norm(n))
     seen = reachable(facts)
     by_rule = {}
     n = 0
@@ -1211,7 +1220,8 @@ def check_panics(out, facts, repo_root, label=None, delegated=True, floor=None, 
                 out.ob('R03.3', key, True, '', site.loc, sample={'site': site.sig()[:160], 'rule': r[0], 'reason': r[1]})
                 continue
             base = _base_fn(sk)
-            rows = [a for a in AUDITED if _base_fn(a['fn']) == base and a['kind'] == kind]
+            rows = [a for a in AUDITED if a['kind'] == kind and (_base_fn(a['fn']) == base if 'fn' in a else
+                                                                  re.match(r'<%s( as [^>]+)?>::' % re.escape(a['self_ty']), base))]
             ok = False
             why = 'no discharge rule applies and the site is not in the audited table'
             if rows:
